@@ -20,7 +20,7 @@ func init() {
 			"R-C10-2 back-off constants as loop facts (init: i < 50, wait 0 then min((i+1)·250ms, 3s); receiveRetry: i < 5, wait i·50ms; exhaustion returns a non-nil error); " +
 			"R-C10-3 every timer wait in the module sits in a select that also has a ctx.Done() case, no time.Sleep, bare receives only on Done()/Ready() channels; " +
 			"R-C10-4 advertise/monitor start every goroutine with eg.Go on an errgroup.WithContext group using the derived context, return eg.Wait's error; Listen interrupts the read on cancellation; a link event yields ErrLinkChange; " +
-			"R-C10-5 the error handed to init on re-dial is the one the task function returned R-C10-6 the failed read/write stays in the error chain (returned as is or %w-wrapped) in Listen, send and the task goroutines; R-C10-7 the Dial callbacks of Run return the task's error unchanged unless it is context.Canceled and panic only for nil; R-C10-8 linkStateWatcher(group ctx, watchC) runs under the task's errgroup, BuildTasks hands each task Watcher.Subscribe(own name, LinkDown), and the watcher waits whenever the channel is non-nil; R-C10-9 every send of a request to the scheduler (listener callback, multicast loop) is an arm of a blocking select with ctx.Done(), so no goroutine of the task outlives a stopped scheduler; R-C10-10 the context Dial hands to the task function is its own ctx or one derived from it inside the same re-dial iteration.",
+			"R-C10-5 the error handed to init on re-dial is the one the task function returned R-C10-6 the failed read/write stays in the error chain (returned as is or %w-wrapped) in Listen, send and the task goroutines; R-C10-7 the Dial callbacks of Run return the task's error unchanged unless it is context.Canceled and panic only for nil; R-C10-8 linkStateWatcher(group ctx, watchC) runs under the task's errgroup, BuildTasks hands each task Watcher.Subscribe(own name, LinkDown), and the watcher waits whenever the channel is non-nil; R-C10-9 every send of a request to the scheduler (listener callback, multicast loop) is an arm of a blocking select with ctx.Done(), so no goroutine of the task outlives a stopped scheduler; R-C10-10 the context Dial hands to the task function is its own ctx or one derived from it inside the same re-dial iteration; R-C10-11 receiveRetry goes round its loop after a failed read only under net.Error.Timeout() == true.",
 		Assumptions: []string{
 			"Go type checker and go/ssa construction are correct",
 			"errgroup.WithContext cancels the derived context on the first non-nil error",
@@ -41,6 +41,49 @@ func runC10(c *Ctx) {
 	c10Waits(c)
 	c10FailTogether(c)
 	requestChannelSends(c, "R-C10-9")
+	c10RetryOnlyTimeouts(c)
+}
+
+// c10RetryOnlyTimeouts (R-C10-11): a failed read is retried on the same
+// connection only when it is a timeout (the interrupt of a cancelled listener,
+// or an idle socket); every other receive error leaves receiveRetry at once so
+// that the task is torn down and classified by the dialer. A path that goes
+// round the retry loop after a failed read without net.Error.Timeout() == true
+// keeps a broken connection and turns a recoverable error into "retries
+// exhausted", which the dialer treats as fatal.
+func c10RetryOnlyTimeouts(c *Ctx) {
+	rr := c.needMethod("R-C10-11", "internal/corerad", "listener", "receiveRetry")
+	if rr == nil {
+		return
+	}
+	fn := c.fname(rr)
+	n, bad := 0, ""
+	for _, p := range c.pathsO("R-C10-11", rr, an.PathOpts{EmitCut: true}) {
+		if !p.Cut {
+			continue
+		}
+		failed, timeout := false, false
+		for _, a := range p.Atoms {
+			x, y, op, ok := effCmp(a)
+			if ok && exprIsNil(y) && op == token.NEQ {
+				if b, idx := stripExtract(x); idx >= 1 && b != nil && b.Op == an.OpCall && strings.Contains(b.Name, "ReadFrom") {
+					failed = true
+				}
+			}
+			if a.Pos && a.Cond.Op == an.OpCall && a.Cond.Name == "Timeout" {
+				timeout = true
+			}
+		}
+		if !failed {
+			continue
+		}
+		n++
+		if !timeout {
+			bad = "a failed read is retried under " + atomsString(p)
+		}
+	}
+	c.R.Check(n >= 1 && bad == "", "R-C10-11", fn+":retries-only-timeouts", fn, c.pos(rr.Pos()), fmt.Sprintf("%d retrying path(s) after a failed read; %s", n, bad),
+		"every path that retries after a failed read established net.Error.Timeout() == true", "a non-timeout receive error is retried on the broken connection and finally reported as an unrecoverable \"retries exhausted\"")
 }
 
 func isErrorsCall(e *an.Expr, name string) bool {
